@@ -1104,8 +1104,9 @@ HEFF_KINDS = {"heff-site": run_heff_site, "heff-bond": run_heff_bond, "heff-env"
 #                  breakdown) must reproduce q(-i dt A) vec for deg q < number of vectors used.  Oracle 1e-9 relative.
 #                  Also from the captured alpha / beta / V of the same run: the recurrence A V = V T on all columns but the last
 #                  (hypothesis of krylov_poly_exact; spec tie) and q(A) vec = nrm V q(T) e_1 by Horner on the dense T.
-# kind apriori   : measured error of the real expm_krylov (true exponential) vs scipy.linalg.expm is at most the proved bound
-#                  2 ||vec|| tail_k(|dt| ||A||_2), k = number of Lanczos vectors the run used; ||T||_2 <= ||A||_2.
+# kind apriori   : measured error of the real expm_krylov (true exponential) vs scipy.linalg.expm is at most the proved bounds
+#                  2 ||vec|| tail_k(|dt| ||A - c||_2) (c = midpoint of the spectrum: half the spectral width; krylov_error_bound_shift) and
+#                  2 ||vec|| tail_k(|dt| ||A||_2) (krylov_error_bound), k = number of Lanczos vectors the run used; ||T - c||_2 <= ||A - c||_2.
 # =====================================================================================================================
 XP_SPEC = {"recurrence": {"n": 0, "bad": 0, "worst": 0.0, "detail": ""}, "tnorm": {"n": 0, "bad": 0, "worst": 0.0, "detail": ""},
            "arnoldi-recurrence": {"n": 0, "bad": 0, "worst": 0.0, "detail": ""}}
@@ -1330,18 +1331,20 @@ def run_apriori(inp):
     rng = random.Random(inp["sub"])
     nprng = np.random.default_rng(inp["sub"])
     n = rng.choice([6, 10, 16, 24, 40, 64, 100])
-    x = rng.choice([0.1, 0.3, 1.0, 2.0, 3.0, 5.0, 8.0])       # |dt| * ||A||_2
+    x = rng.choice([0.1, 0.3, 1.0, 2.0, 3.0, 5.0, 8.0])       # |dt| * (half the spectral width) = |dt| * ||A - c||_2, c the midpoint
     dt = rng.choice([1, -1]) * rng.choice([0.01, 0.1, 0.5, 2.0])
-    shape = rng.choice(["sym", "sym", "onesided", "clustered", "two"])
-    if shape == "sym":
+    shape = rng.choice(["uniform", "uniform", "clustered", "two"])
+    if shape == "uniform":
         lam = nprng.uniform(-1.0, 1.0, size=n)
-    elif shape == "onesided":
-        lam = nprng.uniform(0.0, 1.0, size=n)
+        lam[0], lam[1] = -1.0, 1.0
     elif shape == "clustered":
         lam = np.concatenate([nprng.normal(-0.9, 0.01, size=n // 2), nprng.normal(0.9, 0.01, size=n - n // 2)])
     else:
-        lam = np.where(nprng.random(n) < 0.5, -1.0, 1.0) * 1.0
-    lam = lam / float(np.max(np.abs(lam))) * x / abs(dt)
+        lam = np.where(np.arange(n) % 2 == 0, -1.0, 1.0) * 1.0
+    lam = lam - (float(np.max(lam)) + float(np.min(lam))) / 2
+    lam = lam / float(np.max(np.abs(lam)))
+    shift = rng.choice([0.0, 0.0, 0.5, -1.0, 3.0, 30.0])       # in units of the half width: the spectrum need not be centred
+    lam = (lam + shift) * x / abs(dt)
     a, u = hermitian_with_spectrum(nprng, lam)
     vec = (nprng.normal(size=n) + 1j * nprng.normal(size=n)) * rng.choice([1.0, 1e-3, 37.0])
     if rng.random() < 0.15:
@@ -1355,32 +1358,41 @@ def run_apriori(inp):
         return {"req": None, "impl": None, "kind": "apriori", "sig": "apriori:raised",
                 "oracle": {"ok": False, "detail": f"expm_krylov raised {out} (n={n}, m_max={m_max})"}}
     k = rec["matvec"]
+    ev = np.linalg.eigvalsh(a)
+    mid = (float(ev[0]) + float(ev[-1])) / 2
     norm_a = float(np.linalg.norm(a, 2))
-    xx = abs(dt) * norm_a
+    norm_c = float(np.linalg.norm(a - mid * np.eye(n), 2))     # ||A - c 1||_2 for the real shift c = midpoint of the spectrum
+    xx, xc = abs(dt) * norm_a, abs(dt) * norm_c
     exact = EXPM(-1j * dt * a) @ vec
     err = float(np.linalg.norm(out - exact)) / nrm
-    bound = 2.0 * exp_tail(k, xx)
+    bound_c = 2.0 * exp_tail(k, xc)                            # krylov_error_bound_shift
+    bound = 2.0 * exp_tail(k, xx) if xx < 400 else float("inf")   # krylov_error_bound (c = 0)
     probs = []
-    slack = 1e-9                     # rounding floor of the run itself (observed <= 1e-12, see report), far below every judged bound
+    # rounding floor of the run itself: observed <= 2e-13 * (1 + |dt| ||A||) over 5 seeds (see the builder's report)
+    slack = 1e-9 * (1.0 + xx)
+    if not err <= bound_c * (1 + 1e-9) + slack:
+        probs.append(f"error {err:.3e}*|vec| exceeds the proved bound 2*tail_{k}(|dt|*||A-c||) = 2*tail_{k}({xc:.3g}) = {bound_c:.3e} "
+                     f"(n={n}, m_max={m_max}, tol={tol}, shape {shape}, shift {shift})")
     if not err <= bound * (1 + 1e-9) + slack:
-        probs.append(f"error {err:.3e}*|vec| exceeds the proved bound 2*tail_{k}({xx:.3g}) = {bound:.3e} (n={n}, m_max={m_max}, tol={tol}, shape {shape})")
+        probs.append(f"error {err:.3e}*|vec| exceeds 2*tail_{k}(|dt|*||A||) = {bound:.3e}")
     bound2 = None
     it = rec.get("last")
     if it is not None and it["k"] == k:
         t = np.diag(it["alpha"]) + np.diag(it["beta"], 1) + np.diag(it["beta"], -1)
         norm_t = float(np.linalg.norm(t, 2)) if k > 1 else float(abs(t[0, 0]))
-        rel = norm_t / norm_a - 1.0
-        xp_spec_note("tnorm", max(rel, 0.0), 1e-10, f"||T||_2 / ||A||_2 - 1 = {rel:.2e} (k={k}, n={n})")
+        norm_tc = float(np.linalg.norm(t - mid * np.eye(k), 2)) if k > 1 else float(abs(t[0, 0] - mid))
+        rel = max(norm_t / norm_a - 1.0, (norm_tc - norm_c) / max(norm_a, 1e-300))
+        xp_spec_note("tnorm", max(rel, 0.0), 1e-10, f"||T||_2 / ||A||_2 - 1 resp. (||T-c|| - ||A-c||)/||A|| = {rel:.2e} (k={k}, n={n})")
         if rel > 1e-10:
-            probs.append(f"||T||_2 = {norm_t:.6g} exceeds ||A||_2 = {norm_a:.6g}")
-        bound2 = exp_tail(k, xx) + exp_tail(k, abs(dt) * norm_t)
+            probs.append(f"||T - c||_2 = {norm_tc:.6g} / ||T||_2 = {norm_t:.6g} exceeds ||A - c||_2 = {norm_c:.6g} / ||A||_2 = {norm_a:.6g}")
+        bound2 = exp_tail(k, xc) + exp_tail(k, abs(dt) * norm_tc)
         if not err <= bound2 * (1 + 1e-9) + slack:
-            probs.append(f"error {err:.3e}*|vec| exceeds the two-tail bound tail_{k}(|dt||A|) + tail_{k}(|dt||T|) = {bound2:.3e}")
-    tight = err / bound if bound > 0 else 0.0
-    return {"req": None, "impl": None, "kind": "apriori", "sig": f"apriori:{k}:{x}:{shape}:{m_max}",
-            "oracle": {"ok": not probs, "detail": "; ".join(probs) or f"n={n} |dt||A|={xx:.3g} k={k} (m_max {m_max}, tol {tol}): err {err:.2e} <= bound {bound:.2e}"
-                                                                       + (f" (two-tail {bound2:.2e})" if bound2 is not None else "")},
-            "nontrivial": bound < 1e-2, "meta": {"err": err, "bound": bound, "bound2": bound2, "k": k, "x": xx, "ratio": tight}}
+            probs.append(f"error {err:.3e}*|vec| exceeds the two-tail bound tail_{k}(|dt||A-c|) + tail_{k}(|dt||T-c|) = {bound2:.3e}")
+    tight = err / bound_c if bound_c > 0 else 0.0
+    return {"req": None, "impl": None, "kind": "apriori", "sig": f"apriori:{k}:{x}:{shape}:{shift}:{m_max}",
+            "oracle": {"ok": not probs, "detail": "; ".join(probs) or f"n={n} |dt||A-c|={xc:.3g} |dt||A|={xx:.3g} k={k} (m_max {m_max}, tol {tol}): err {err:.2e} <= "
+                                                                       f"bound {bound_c:.2e}" + (f" (two-tail {bound2:.2e})" if bound2 is not None else "")},
+            "nontrivial": bound_c < 1e-2, "meta": {"err": err, "bound": bound_c, "bound0": bound, "bound2": bound2, "k": k, "x": xc, "xa": xx, "ratio": tight}}
 
 
 def xp_spec():
@@ -1390,7 +1402,7 @@ def xp_spec():
             {"name": "hypothesis of arnoldi_poly_exact on the real run: A V = V H on all columns but the last for the captured h, V",
              "ok": XP_SPEC["arnoldi-recurrence"]["bad"] == 0, "n": XP_SPEC["arnoldi-recurrence"]["n"],
              "worst_residual": XP_SPEC["arnoldi-recurrence"]["worst"], "detail": XP_SPEC["arnoldi-recurrence"]["detail"]},
-            {"name": "clause (2) of krylov_error_bound on the real run: ||T||_2 <= ||A||_2 for the tridiagonal matrix the code diagonalises",
+            {"name": "clause (2) of krylov_error_bound on the real run: ||T||_2 <= ||A||_2 and ||T - c||_2 <= ||A - c||_2 for the tridiagonal matrix the code diagonalises",
              "ok": XP_SPEC["tnorm"]["bad"] == 0, "n": XP_SPEC["tnorm"]["n"], "worst_residual": XP_SPEC["tnorm"]["worst"],
              "detail": XP_SPEC["tnorm"]["detail"]}]
 
